@@ -144,6 +144,56 @@ type AltComp struct {
 	Note string
 }
 
+// MapComp is a component type that is not comparable (a map): another legal instantiation of the generic container
+type MapComp map[string]any
+
+func (m MapComp) str(k string, missing error) (string, error) {
+	v, ok := m[k]
+	if !ok {
+		return "", missing
+	}
+	s, ok := v.(string)
+	if !ok {
+		return "", fmt.Errorf("%w: %s is not text", psatoken.ErrWrongSyntax, k)
+	}
+	return s, nil
+}
+func (m MapComp) bin(k string) ([]byte, error) {
+	v, ok := m[k]
+	if !ok {
+		return nil, psatoken.ErrMandatoryFieldMissing
+	}
+	b, ok := v.([]byte)
+	if !ok {
+		if s, isStr := v.(string); isStr {
+			b = []byte(s)
+		} else {
+			return nil, fmt.Errorf("%w: %s is not bytes", psatoken.ErrWrongSyntax, k)
+		}
+	}
+	if err := psatoken.ValidatePSAHashType(b); err != nil {
+		return nil, err
+	}
+	return b, nil
+}
+func (m MapComp) Validate() error { return psatoken.ValidateSwComponent(m) }
+func (m MapComp) GetMeasurementType() (string, error) {
+	return m.str("measurement-type", psatoken.ErrOptionalFieldMissing)
+}
+func (m MapComp) GetMeasurementValue() ([]byte, error) { return m.bin("measurement-value") }
+func (m MapComp) GetVersion() (string, error) {
+	return m.str("version", psatoken.ErrOptionalFieldMissing)
+}
+func (m MapComp) GetSignerID() ([]byte, error) { return m.bin("signer-id") }
+func (m MapComp) GetMeasurementDesc() (string, error) {
+	return m.str("measurement-description", psatoken.ErrOptionalFieldMissing)
+}
+func (m MapComp) SetMeasurementType(v string) error  { m["measurement-type"] = v; return nil }
+func (m MapComp) SetMeasurementValue(v []byte) error { m["measurement-value"] = v; return nil }
+func (m MapComp) SetVersion(v string) error          { m["version"] = v; return nil }
+func (m MapComp) SetSignerID(v []byte) error         { m["signer-id"] = v; return nil }
+func (m MapComp) SetMeasurementDesc(v string) error  { m["measurement-description"] = v; return nil }
+
 // foreignNilOp: a list whose second entry is a nil pointer of another component type; never acceptable
 func foreignNilOp() setOp {
 	return setOp{name: "SetSoftwareComponents([A, nil-of-another-component-type])", claim: "components",
